@@ -245,6 +245,16 @@ impl Prop for C02 {
                     gen: enum_small,
                 },
             },
+            Stage {
+                name: "huge",
+                kind: StageKind::Enumerate { scope: "2 fixed line texts with 70 000 / 66 000 distinct lines (token ids beyond 16 bits, once with both sides below 65 536 lines)".into(), exhaustive: true, gen: |_t, f| {
+                    for c in huge_line_cases() {
+                        if !f(Case::Text(c)) {
+                            return;
+                        }
+                    }
+                } },
+            },
             Stage { name: "random", kind: StageKind::Random { strategy: strat, cases: tier.pick(1_000_000, 6_000_000) } },
         ]
     }
